@@ -59,8 +59,8 @@ LEVEL_TEXT = ('Coq theorems over an executable effect-list model of utils.file.A
 LEVEL_NOTE = ('Trusted: Coq kernel, gen_tables.py, extraction + OCaml driver, the Python harness (I/O wrappers, fork/kill machinery), the POSIX '
               'file-system contract as modelled.  Modelled, not verified: all Python code; the loader models are those of C16/C15 (validated by '
               'those checks), the text decoding of a file is a hypothesis (empty file -> empty text).  NOT modelled / not covered: '
-              '(1) the other in-place writers of dbi.FlatfileMapping -- set() (dash out the old line, then append: a death in between loses the '
-              'record) and remove() -- only add() is modelled and fault-enumerated; ids wider than the header width; '
+              '(1) dbi.FlatfileMapping add/set/remove are modelled as sequences of kernel writes and fault-enumerated (set loses the record in the '
+              'dashed-out window: finding C17.F49); ids wider than the header width and duplicate ids already in the file are outside the domain; '
               '(2) cdb.Maker / cdb.ReaderWriter (seek/tell on the temp file, the .journal file): the model has append-only temp files, these '
               'callers are only scanned by the table extractor; (3) the plugin callers Karma.dump, Later._flushNotes, RSS (with-statement) are '
               'only table-scanned (no close() in finally/except, no swallowed write error), plugins.ChannelUserDB is fault-enumerated; '
@@ -1211,7 +1211,12 @@ def _flat_run(base, case, crash):
             return Proxy(f) if (file == fn and '+' in mode) else f
         dbi.open = o
         try:
-            db.add(case['rec'])
+            if case['op'] == 'flat-add':
+                db.add(case['rec'])
+            elif case['op'] == 'flat-set':
+                db.set(case['id'], case['rec'])
+            else:
+                db.remove(case['id'])
             os.write(w, str(n[0]).encode())
         finally:
             os._exit(0)
@@ -1263,6 +1268,52 @@ def check_flat_add(ctx, only=None):
                 ctx.disagree(dict(base, crash=None), model_seq, seen, 'sequence of on-disk states of FlatfileMapping.add over all kill points')
 
 
+FLAT_SET_CASES = [{'op': 'flat-set', 'n': 2, 'removed': 0, 'id': 1, 'rec': 'changed'},
+                  {'op': 'flat-set', 'n': 3, 'removed': 1, 'id': 3, 'rec': 'last one changed: x'},
+                  {'op': 'flat-set', 'n': 2, 'removed': 0, 'id': 7, 'rec': 'an id that is not in the file'},
+                  {'op': 'flat-set', 'n': 2, 'removed': 2, 'id': 1, 'rec': 'a removed id comes back'},
+                  {'op': 'flat-remove', 'n': 3, 'removed': 0, 'id': 2, 'rec': ''},
+                  {'op': 'flat-remove', 'n': 2, 'removed': 1, 'id': 2, 'rec': ''},
+                  {'op': 'flat-remove', 'n': 2, 'removed': 0, 'id': 9, 'rec': ''}]
+
+
+def check_flat_set_remove(ctx, only=None):
+    """dbi.FlatfileMapping.set / remove, in place: a kill before/after every method call on their file object, then a restart"""
+    from lib import wire
+    d = boot.boot()
+    for case in ([only] if only else FLAT_SET_CASES):
+        base = dict((k, case[k]) for k in ('op', 'n', 'removed', 'id', 'rec'))
+        is_set = base['op'] == 'flat-set'
+        what = 'set(%d, %r)' % (base['id'], base['rec']) if is_set else 'remove(%d)' % base['id']
+        ncalls, old, final, _, _ = _flat_run(d, base, None)
+        new = [r for r in old[1] if r[0] != base['id']] + ([(base['id'], base['rec'])] if is_set else [])
+        if final[1] != new:
+            ctx.fail(dict(base, crash=None), '%s left %r, expected %r' % (what, final[1], new))
+        pts = [tuple(case['crash'])] if case.get('crash') else [(i, sd) for i in range(ncalls or 0) for sd in ('before', 'after')]
+        payload = [old[0], [[i, t] for i, t in old[1]], is_set, base['id'], base['rec']]
+        m0 = ctx.model([[7, payload + [0]]])[0]
+        nwrites = m0[0] if (m0 is not None and not isinstance(m0, tuple)) else None
+        mstates = ctx.model([[7, payload + [k]] for k in range((nwrites or 0) + 1)]) if nwrites is not None else []
+        seen = []
+        for pt in pts:
+            inp = dict(base, crash=list(pt))
+            ctx.case(base['op'] + '/' + pt[1], inp)
+            _, _, disk, recs, after = _flat_run(d, base, pt)
+            if not seen or seen[-1] != disk[1]:
+                seen.append(disk[1])
+            if recs not in (old[1], new):
+                ctx.fail(inp, 'after a kill %s call %d of FlatfileMapping.%s the records are %r: neither the old ones %r nor the new ones %r'
+                         % (pt[1], pt[0], what, recs, old[1], new))
+        if not case.get('crash') and mstates and all(m is not None and not isinstance(m, tuple) for m in mstates):
+            model_seq = []
+            for m in mstates:
+                st = [(kv[0], wire.s(kv[1])) for kv in m[1]]
+                if not model_seq or model_seq[-1] != st:
+                    model_seq.append(st)
+            if model_seq != seen:
+                ctx.disagree(dict(base, crash=None), model_seq, seen, 'sequence of on-disk records of FlatfileMapping.%s over all kill points' % what)
+
+
 def run(ctx):
     boot.boot()
     import supybot.ircdb, supybot.dbi, supybot.world  # noqa: F401  (before forking)
@@ -1296,9 +1347,16 @@ def run(ctx):
     evaluate(ctx, big, limit=24 if ctx.scale == 1 else 120, kind_prefix='full-')
     check_loader_table(ctx)
     check_flat_add(ctx)
+    check_flat_set_remove(ctx)
 
 
-CLASSES = {'tmpdir_other_fs': lambda inp: inp.get('tmp') in ('exdev', 'realxdev') and
+def _flat_set_existing(inp):
+    """class predicate of finding C17.F49: set() of an id that is (live) in the file"""
+    return inp.get('op') == 'flat-set' and inp.get('removed', 0) < inp.get('id', 0) <= inp.get('n', 0)
+
+
+CLASSES = {'flat_set_in_place': _flat_set_existing,
+           'tmpdir_other_fs': lambda inp: inp.get('tmp') in ('exdev', 'realxdev') and
            (inp.get('caller') != 'raw' or any(o[0] == 'close' for o in inp.get('ops', [])))}
 
 
@@ -1306,6 +1364,10 @@ def replay(ctx, inp):
     boot.boot()
     import supybot.ircdb, supybot.dbi, supybot.world  # noqa: F401
     sub = type(ctx)(ctx.pid, ctx.tier, ctx.seed, {'model_ok': False})
+    if inp.get('op') in ('flat-set', 'flat-remove'):
+        import supybot.dbi  # noqa: F401
+        check_flat_set_remove(sub, only=inp)
+        return sub.failures[0]['detail'] if sub.failures else None
     if inp.get('op') == 'flat-add':
         import supybot.dbi  # noqa: F401
         check_flat_add(sub, only=inp)
